@@ -55,3 +55,32 @@ pub fn pow2s(n: usize) -> Vec<f64> {
 pub fn distinct_seed(n: usize) -> Vec<f64> {
     (0..n).map(|i| ((i * 7 + 3) % 11) as f64 - 4.0 + if (i * 7 + 3) % 11 == 4 { 9.0 } else { 0.0 }).collect()
 }
+
+/// special value patterns for one operand (value-dependent shortcuts are a classic source of defects)
+pub const N_PATTERNS: usize = 8;
+pub fn pattern_vals(pat: usize, n: usize, salt: u64) -> Vec<f64> {
+    match pat % N_PATTERNS {
+        0 => vec![0.0; n],
+        1 => vec![1.0; n],
+        2 => vec![-2.5; n],
+        // alternating, sums to exactly zero when n is even
+        3 => (0..n).map(|i| if i % 2 == 0 { 1.5 } else { -1.5 }).collect(),
+        // one-hot
+        4 => (0..n).map(|i| if i as u64 == salt % n as u64 { 3.0 } else { 0.0 }).collect(),
+        // mostly ordinary values with exact zeros in between
+        5 => (0..n).map(|i| if (i as u64 + salt) % 3 == 0 { 0.0 } else { (i % 5) as f64 - 2.0 }).collect(),
+        // zero-sum integers that are not alternating
+        6 => {
+            let mut v: Vec<f64> = (0..n).map(|i| ((i * 3 + 1) % 7) as f64 - 3.0).collect();
+            let s: f64 = v.iter().sum();
+            if let Some(l) = v.last_mut() {
+                *l -= s;
+            }
+            v
+        }
+        // powers of two of both signs
+        _ => (0..n).map(|i| 2f64.powi((i % 9) as i32 - 4) * if i % 2 == 0 { 1.0 } else { -1.0 }).collect(),
+    }
+}
+/// sizes around the block lengths that blocked / unrolled loops typically use
+pub const BOUNDARY_SIZES: [usize; 18] = [4, 5, 7, 8, 9, 15, 16, 17, 31, 32, 33, 63, 64, 65, 127, 128, 129, 130];
